@@ -1,4 +1,3 @@
-OPEN "a.txt" FOR APPEND AS #1
-OPEN "pre.txt" FOR RANDOM AS #2 LEN = 4
-FIELD #2, 4 AS F2$
-KILL "b.txt"
+OPEN "a.txt" FOR APPEND AS #2
+PRINT #2, "p" + CHR$(200) + "q"
+KILL "nodir/x.txt"
